@@ -491,11 +491,20 @@ func patchesFor(u *CheckSpec, patches []SourcePatch) []SourcePatch {
 }
 
 func patchesApply(repo string, ps []SourcePatch) bool {
+	files := map[string]string{}
 	for _, p := range ps {
-		src, err := os.ReadFile(filepath.Join(repo, p.File))
-		if err != nil || strings.Count(string(src), p.Old) != 1 {
+		src, ok := files[p.File]
+		if !ok {
+			b, err := os.ReadFile(filepath.Join(repo, p.File))
+			if err != nil {
+				return false
+			}
+			src = string(b)
+		}
+		if strings.Count(src, p.Old) != 1 {
 			return false
 		}
+		files[p.File] = strings.Replace(src, p.Old, p.New, 1)
 	}
 	return true
 }
